@@ -59,6 +59,30 @@ class RG:
         self.in_bits += w
         return self.define(v, ('u', w))
 
+    def stall_pin(self):
+        """the stall condition of a pipeline: an input pin, or a condition computed from two pins - among them a NEGATED
+        AND held in a named signal (Conjunction::parseOutput must keep it as ONE negated term: ~(a&b) is not ~a & ~b)"""
+        k = self.r.random()
+        if k < 0.55:
+            return self.pin(0)
+        a, b = self.pin(0), self.pin(0)
+        v = self.fresh("s")
+        if k < 0.65:
+            self.emit(f"bin {v} and {a} {b}")
+        elif k < 0.72:
+            self.emit(f"not {v} {a}")
+        elif k < 0.78:
+            self.emit(f"bin {v} or {a} {b}")
+        else:
+            m = self.fresh("s")
+            self.emit(f"bin {m} {self.r.choice(['and', 'and', 'or'])} {a} {b}")
+            if self.r.random() < 0.75:
+                self.emit(f"name {m} blocked_{m}")
+            self.emit(f"not {v} {m}")
+            self.feat.add("stall-is-negated-and-in-named-signal")
+        self.feat.add("computed-stall-condition")
+        return self.define(v, 'b')
+
     def lit(self, t, bits=None):
         v = self.fresh("k")
         if t == 'b':
@@ -164,7 +188,7 @@ def _group_inputs(g, stall, resets, nin=None, widths=None):
     pins = [g.pin(w) for w in widths[:nin]]
     en = None
     if stall:
-        en = g.pin(0)
+        en = g.stall_pin()
         g.emit(f"enif {en}")
         g.feat.add("stall")
     g.emit("pipegroup G")
@@ -236,7 +260,7 @@ def t_two_groups(g):
     en = None
     pins = [g.pin(0) for _ in range(r.choice([3, 4]))]
     if stall:
-        en = g.pin(0)
+        en = g.stall_pin()
         g.emit(f"enif {en}")
         g.feat.add("stall")
     outs = []
@@ -355,7 +379,7 @@ def t_movable_fwd(g):
         nin = r.choice([2, 2, 3])
         pins = [g.pin(r.choice([0, 0, 2]) if i == 0 else 0) for i in range(nin)]
         if mode == "stall":
-            en = g.pin(0)
+            en = g.stall_pin()
             g.emit(f"enif {en}")
             g.feat.add("stall")
         for p in pins:
@@ -414,7 +438,7 @@ def t_movable_series(g):
     pins = [g.pin(0) for _ in range(nin)]
     en = None
     if stall:
-        en = g.pin(0)
+        en = g.stall_pin()
         g.emit(f"enif {en}")
         g.feat.add("stall")
     pool = []
@@ -448,7 +472,7 @@ def t_movable_bwd(g):
     pins = [g.pin(r.choice([0, 0, 2]) if i == 0 else 0) for i in range(nin)]
     en = None
     if stall:
-        en = g.pin(0)
+        en = g.stall_pin()
         g.emit(f"enif {en}")
         g.feat.add("stall")
     pool = list(pins)
@@ -495,7 +519,7 @@ def t_negreg(g):
     pins = [g.pin(w) for w in widths]
     en = None
     if stall:
-        en = g.pin(0)
+        en = g.stall_pin()
         g.emit(f"enif {en}")
         g.feat.add("stall")
     g.emit("pipegroup G")
@@ -579,7 +603,7 @@ def t_mem_region(g):
     pins = [g.pin(w) for w in widths]
     en = None
     if stall:
-        en = g.pin(0)
+        en = g.stall_pin()
         g.emit(f"enif {en}")
         g.feat.add("stall")
     g.emit("pipegroup G")
